@@ -551,18 +551,14 @@ def clause_d(repo, chk):
             file=FIT, line=save_as.lineno,
         )
     # the guard and the unwrap must use the same key:  if "value" in params: params = params["value"]
+    guards = set()
     for n in walk_local(set_params.node):
-        if isinstance(n, ast.If) and isinstance(n.test, ast.Compare) and isinstance(n.test.ops[0], ast.In) and isinstance(n.test.left, ast.Constant):
-            gk = n.test.left.value
-            inner = set()
-            for s in n.body:
-                for x in ast.walk(s):
-                    if isinstance(x, ast.Subscript) and isinstance(const_value(x.slice), str):
-                        inner.add(const_value(x.slice))
-            if inner:
-                chk.instance("D-keys", "set_params guard key %r / unwrap key %s" % (gk, sorted(inner)))
-                if gk not in inner:
-                    chk.violation("D-keys", set_params.key, "guard:%s" % gk, "guard tests key %r but unwraps %s" % (gk, sorted(inner)), file=set_params.mod.rel, line=n.lineno)
+        if isinstance(n, ast.Compare) and len(n.ops) == 1 and isinstance(n.ops[0], ast.In) and isinstance(n.left, ast.Constant) and isinstance(n.left.value, str) and isinstance(n.comparators[0], ast.Name) and n.comparators[0].id == "params":
+            guards.add(n.left.value)
+    chk.instance("D-keys", "set_params guard key(s) %s / unwrap key(s) %s" % (sorted(guards), sorted(rkeys)))
+    for gk in sorted(guards):
+        if gk not in rkeys:
+            chk.violation("D-keys", set_params.key, "guard:%s" % gk, "guard tests key %r but the unwrap reads %s" % (gk, sorted(rkeys)), file=set_params.mod.rel, line=set_params.lineno)
     # save_params: flat dict of get_params()
     sp = repo.fn("tf_pwa/config_loader/config_loader.py::ConfigLoader.save_params")
     flat = False
